@@ -95,7 +95,7 @@ fn request_with_cookie(text: &[u8]) -> Result<ohkami::__verif::VRequest, String>
 }
 fn lossy(b: &[u8]) -> String { util::clip(&String::from_utf8_lossy(b), 300) }
 fn dec<T: Ck>(text: &[u8]) -> Value {
-    let noreq = |e: String| json!({"kind": "cookie", "mode": "dec", "text": bytes_json(text), "texts": lossy(text), "de": "noreq", "err": e, "errc": "", "vout": []});
+    let noreq = |e: String| json!({"kind": "cookie", "mode": "dec", "text": bytes_json(text), "texts": lossy(text), "de": "noreq", "err": e, "errc": "", "vout": [], "rot_same": true});
     let req = match request_with_cookie(text) { Ok(r) => r, Err(e) => return noreq(e) };
     let Some(raw) = req.get().headers.Cookie() else { return noreq("the request has no Cookie header".into()) };
     if raw.as_bytes() != text { return noreq("Cookie header value differs from what was sent".into()) }
@@ -103,7 +103,16 @@ fn dec<T: Ck>(text: &[u8]) -> Value {
         Ok(v) => ("ok", String::new(), proj_json(&v.project())),
         Err(e) => ("err", util::clip(&e.to_string(), 200), json!([])),
     };
-    json!({"kind": "cookie", "mode": "dec", "text": bytes_json(text), "texts": lossy(text), "de": de, "errc": errc(&err), "err": err, "vout": vout})
+    // the same cookies in another order (last pair first): a set of cookies decodes to the same names and values whatever their order
+    let parts: Vec<&str> = raw.split("; ").collect();
+    let rot_same = if parts.len() < 2 { true } else {
+        let mut p2 = parts.clone(); p2.rotate_right(1);
+        let t2 = p2.join("; ");
+        let (de2, vout2) = match ohkami_lib::serde_cookie::from_str::<T>(&t2) { Ok(v) => ("ok", proj_json(&v.project())), Err(_) => ("err", json!([])) };
+        let sorted = |v: &Value| { let mut x: Vec<String> = util::arr(v).iter().map(|e| e.to_string()).collect(); x.sort(); x };
+        de2 == de && sorted(&vout2) == sorted(&vout)
+    };
+    json!({"kind": "cookie", "mode": "dec", "text": bytes_json(text), "texts": lossy(text), "de": de, "errc": errc(&err), "err": err, "vout": vout, "rot_same": rot_same})
 }
 fn iter(text: &[u8]) -> Value {
     let req = match request_with_cookie(text) { Ok(r) => r, Err(e) => return json!({"kind": "cookie", "mode": "iter", "text": bytes_json(text), "texts": lossy(text), "de": "noreq", "err": e, "errc": "", "pairs": []}) };
